@@ -41,7 +41,7 @@ def attrs(c: Contract) -> str:
     # (closure borrow order in the contract expansion), so such clauses are emitted last.
     ens = [e for e in c.ensures if "vm" in e[1]] + [e for e in c.ensures if "vm" not in e[1]]
     for name, expr in ens:
-        out.append(f'#[cfg_attr(kani, kani::ensures(|r: &{c.ret}| {V}::clause("{name}", {expr})))]')
+        out.append(f'#[cfg_attr(kani, kani::ensures(|r: &{c.ret}| {V}::clause("{name}", /*[{name}*/ {expr} /*]*/)))]')
     return "\n".join(out) + "\n"
 
 
@@ -60,11 +60,11 @@ def arch_expr() -> str:
 
 
 def fenced() -> str:
-    return decl_regs() + f"\n        let mut vm = {V}::fenced_vm_with({arch_expr()});\n"
+    return decl_regs() + f"\n        let mut vm = {V}::fenced_vm_with({arch_expr()});\n        /*@regs-done*/\n"
 
 
 def heap() -> str:
-    return decl_regs() + f"\n        let mut vm = {V}::heap_vm_with({arch_expr()});\n"
+    return decl_regs() + f"\n        let mut vm = {V}::heap_vm_with({arch_expr()});\n        /*@regs-done*/\n"
 
 
 def binary_alu(fn: str, w: int, op: str) -> Contract:
@@ -204,7 +204,7 @@ def cbw_cwd(fn: str) -> Contract:
 def arithmetic_contracts() -> List[Contract]:
     out = []
     for w, p in ((8, "byte"), (16, "word")):
-        for op in ("Add", "Adc", "Sub", "Sbb", "Cmp"):
+        for op in ("Add", "Adc", "Sub", "Sbb"):
             out.append(binary_alu(f"{p}_{op.lower()}", w, op))
         out.append(unary_incdecneg(f"{p}_neg", w, "Neg"))
         out.append(mul(f"{p}_mul", w, False))
@@ -237,7 +237,7 @@ def bit_contracts() -> List[Contract]:
 # the full input domain: a complete proof, not a bounded one.
 
 def A(name: str, expr: str) -> str:
-    return f'        assert!({V}::clause("{name}", {expr}), "{name}");\n'
+    return f'        assert!({V}::clause("{name}", /*[{name}*/ {expr} /*]*/), "{name}");\n'
 
 
 @dataclass
@@ -370,10 +370,90 @@ def incdec_harnesses() -> List[Harness]:
             h.stub_verified = [f"{p}_{callee}"]
             h.replay = {"kind": "l1_unary", "fn": fn, "w": w, "spec": "una", "op": op}
             out.append(h)
+        # CMP (implemented on top of SUB): proved against SUB's contract as well
+        fn = f"{p}_cmp"
+        body = fenced() + f"        let in_op1: {t} = kani::any();\n        let in_op2: {t} = kani::any();\n        let old = {V}::regs(&vm);\n"
+        body += f"        let r = {fn}(&mut vm, in_op1, in_op2);\n        let e = {S}::alu{w}({S}::Alu::Cmp, in_op1, in_op2, in_flag & 1 != 0);\n"
+        body += A(f"arith.{fn}.result", "r == in_op1")
+        for name, bit in FLAGBITS:
+            body += A(f"arith.{fn}.{name}", f"vm.arch.flag & {S}::{bit} == e.1 & {S}::{bit}")
+        body += A(f"arith.{fn}.other_flag_bits", f"vm.arch.flag & !{S}::STATUS6 == in_flag & !{S}::STATUS6")
+        body += f"        let mut exp = old;\n        exp.flag = vm.arch.flag;\n"
+        body += A(f"arith.{fn}.frame", f"{V}::regs(&vm) == exp")
+        body += f"        {V}::forget_vm(vm);\n"
+        cl = [f"arith.{fn}.{x}" for x in ["result", "CF", "PF", "AF", "ZF", "SF", "OF", "other_flag_bits", "frame"]]
+        h = Harness("c_" + fn, ["C01", "C09"], body, cl, [fn])
+        h.stub_verified = [f"{p}_sub"]
+        h.replay = {"kind": "l1_binary", "fn": fn, "w": w, "spec": "alu", "op": "Cmp"}
+        out.append(h)
+    return out
+
+
+def string_harnesses() -> List[Harness]:
+    """C07, L1: the ten string functions on a fully nondeterministic 1 MB memory (class M).
+    source element at DS:SI, destination element at ES:DI, word = the two bytes at phys and phys+1 mod 2^20
+    read/written as a whole, pointers +-1/+-2 mod 2^16 by DF, CMPS = flags of src - dst, SCAS = flags of
+    acc - dst, nothing else changes (symbolic frame cell in_p)."""
+    MBx = "(crate::vm::MB as usize)"
+    out = []
+    for fam, fnbase in (("movs", "movs"), ("lods", "loads"), ("stos", "stos"), ("cmps", "cmps"), ("scas", "scas")):
+        for w, wn in ((8, "byte"), (16, "word")):
+            fn = f"{fnbase}_{wn}"
+            size = 1 if w == 8 else 2
+            b = heap()
+            b += f"        let src: usize = {S}::phys(in_ds, in_si);\n        let dst: usize = {S}::phys(in_es, in_di);\n"
+            b += f"        let in_s0: u8 = vm.mem[src];\n        let in_s1: u8 = vm.mem[{S}::next(src)];\n"
+            b += f"        let in_d0: u8 = vm.mem[dst];\n        let in_d1: u8 = vm.mem[{S}::next(dst)];\n"
+            b += f"        let in_p: usize = kani::any();\n        kani::assume(in_p < {MBx});\n        let in_p0: u8 = vm.mem[in_p];\n"
+            b += f"        let old = {V}::regs(&vm);\n"
+            b += f"        {fn}(&mut vm);\n"
+            b += f"        let mut exp = old;\n        let down = old.flag & {S}::DF != 0;\n"
+            b += f"        let stp = |x: u16| if down {{ x.wrapping_sub({size}) }} else {{ x.wrapping_add({size}) }};\n"
+            sv = "in_s0" if w == 8 else "((in_s0 as u16) | ((in_s1 as u16) << 8))"
+            dv = "in_d0" if w == 8 else "((in_d0 as u16) | ((in_d1 as u16) << 8))"
+            acc = "(old.ax as u8)" if w == 8 else "old.ax"
+            writes = []
+            if fam == "movs":
+                b += "        exp.si = stp(old.si);\n        exp.di = stp(old.di);\n"
+                writes = [("dst", "in_s0")] + ([(f"{S}::next(dst)", "in_s1")] if w == 16 else [])
+            elif fam == "lods":
+                b += "        exp.si = stp(old.si);\n"
+                b += ("        exp.ax = (old.ax & 0xFF00) | in_s0 as u16;\n" if w == 8 else f"        exp.ax = {sv};\n")
+            elif fam == "stos":
+                b += "        exp.di = stp(old.di);\n"
+                writes = [("dst", "(old.ax as u8)")] + ([(f"{S}::next(dst)", "((old.ax >> 8) as u8)")] if w == 16 else [])
+            elif fam in ("cmps", "scas"):
+                first = sv if fam == "cmps" else acc
+                if fam == "cmps":
+                    b += "        exp.si = stp(old.si);\n"
+                b += "        exp.di = stp(old.di);\n"
+                b += f"        exp.flag = {S}::merge(old.flag, {S}::alu{w}({S}::Alu::Sub, {first}, {dv}, false).1, {S}::STATUS6);\n"
+            b += f"        {V}::check_regs(&vm, &exp, /*[regmask*/ 0 /*]*/);\n"
+            if writes:
+                exp_p = "in_p0"
+                for a, v in writes:
+                    exp_p = f"if in_p == {a} {{ {v} }} else {{ {exp_p} }}"
+                inws = " || ".join(f"in_p == {a}" for a, _ in writes)
+                b += f"        let exp_p: u8 = {exp_p};\n        if {inws} {{\n"
+                b += f'            assert!(/*[mem.dest*/ vm.mem[in_p] == exp_p /*]*/, "mem.dest");\n        }} else {{\n'
+                b += f'            assert!(/*[mem.frame*/ vm.mem[in_p] == in_p0 /*]*/, "mem.frame");\n        }}\n'
+                cl = ["mem.dest", "mem.frame"]
+            else:
+                b += f'        assert!(/*[mem.frame*/ vm.mem[in_p] == in_p0 /*]*/, "mem.frame");\n'
+                cl = ["mem.frame"]
+            b += f"        {V}::forget_vm(vm);\n"
+            h = Harness("c_" + fn, ["C07", "C09"], b, ["reg." + r for r in INPUT_REGS] + cl, [fn], klass="M")
+            if fam in ("cmps", "scas"):
+                # bit-level flag arithmetic over symbolic memory: z3 does not finish in 15 min, SAT with arrays as
+                # uninterpreted functions does in ~80 s (11 GB); byte_sub carries a contract, which Kani refuses to stub
+                h.klass = "S"
+            h.replay = {"kind": "l3", "shape": "string_l1", "mn": fam, "w": wn}
+            out.append(h)
     return out
 
 
 L0_HARNESSES: Dict[str, List[Harness]] = {
+    "src/lib/instructions/string.rs": string_harnesses(),
     "src/lib/instructions/arithmetic.rs": incdec_harnesses(),
     "src/lib/util/flag_util.rs": flag_util_harnesses(),
     "src/lib/util/interpreter_util.rs": interp_util_harnesses(),
@@ -412,6 +492,7 @@ def harness_module(file: str, contracts: List[Contract]) -> str:
             out.append(f"    #[kani::unwind({c.unwind})]")
         out.append(f"    fn c_{c.fn}() {{")
         out.append(c.harness.rstrip("\n"))
+        out.append(f'        kani::cover!(true, "c_{c.fn} reachable");')
         out.append("    }")
     out.append("}")
     return "\n".join(out) + "\n"
